@@ -246,7 +246,7 @@ PROPS = {
         "technique": "model-based stateful testing in the static-heap build: reference queue whose entries carry 'the pushed text or nothing', unique texts per history, exact-size heap under ASan, full-reuse probe after every history",
         "level": "all operation sequences over pushes with texts of every length 0..heap size, text-less pushes, SYST:ERR?, pop+release and clear "
                  "for heap sizes 2..12 and queue capacities 1..4 up to a per-heap length bound (listed in the evidence), plus random histories "
-                 "of up to 1000 operations on heaps of 2..256 bytes; texts are pushed NUL-terminated, from exact-size unterminated buffers with an explicit length, and with an explicit length shorter than what follows Pop-and-keep / release-kept operations: a text the application popped stays unchanged until it gives it back (released before the next push with text).",
+                 "of up to 1000 operations on heaps of 2..256 bytes; texts are pushed NUL-terminated, from exact-size unterminated buffers with an explicit length, and with an explicit length shorter than what follows",
         "level_note": "only the USE_MEMORY_ALLOCATION_FREE=0 configuration is built; popped texts are released by the harness with scpiheap_free(..., false) as SCPI_SystemErrorNextQ does; texts are at most 255 characters",
         "design_ref": "DESIGN.md section 4, C20",
         "runs": simple("c20", cfgs=("heap",)),
